@@ -53,7 +53,8 @@ pub struct HavokBinaryTagFileReader<'a> {
 }
 
 impl<'a> HavokBinaryTagFileReader<'a> {
-    pub fn read(data: &'a [u8]) -> HavokRootObject {
+    /// Reads a tag file; `None` when the data ends early.
+    pub fn read(data: &'a [u8]) -> Option<HavokRootObject> {
         let mut reader = Self::new(ByteReader::new(data));
 
         reader.do_read()
@@ -80,18 +81,18 @@ impl<'a> HavokBinaryTagFileReader<'a> {
         }
     }
 
-    fn do_read(&mut self) -> HavokRootObject {
-        let signature1 = self.reader.read_bytes(4).to_int_le::<u32>();
-        let signature2 = self.reader.read_bytes(4).to_int_le::<u32>();
+    fn do_read(&mut self) -> Option<HavokRootObject> {
+        let signature1 = self.reader.try_read_bytes(4)?.to_int_le::<u32>();
+        let signature2 = self.reader.try_read_bytes(4)?.to_int_le::<u32>();
         if signature1 != 0xCAB0_0D1E || signature2 != 0xD011_FACE {
             panic!()
         }
 
         loop {
-            let tag_type = HavokTagType::from_raw(self.read_packed_int() as u8);
+            let tag_type = HavokTagType::from_raw(self.read_packed_int()? as u8);
             match tag_type {
                 HavokTagType::FileInfo => {
-                    self.file_version = self.read_packed_int() as u8;
+                    self.file_version = self.read_packed_int()? as u8;
                     assert_eq!(self.file_version, 3, "Unimplemented version");
                     self.remembered_objects
                         .push(Arc::new(RefCell::new(HavokObject::new(
@@ -100,12 +101,12 @@ impl<'a> HavokBinaryTagFileReader<'a> {
                         ))))
                 }
                 HavokTagType::Type => {
-                    let object_type = self.read_type();
+                    let object_type = self.read_type()?;
                     self.remembered_types.push(Arc::new(object_type));
                 }
                 HavokTagType::Backref => panic!(),
                 HavokTagType::ObjectRemember => {
-                    let object = Arc::new(RefCell::new(self.read_object()));
+                    let object = Arc::new(RefCell::new(self.read_object()?));
 
                     self.remembered_objects.push(object.clone());
                     self.objects.push(object);
@@ -122,35 +123,32 @@ impl<'a> HavokBinaryTagFileReader<'a> {
             self.fill_object_reference(&mut object.borrow_mut());
         }
 
-        HavokRootObject::new(self.remembered_objects[1].clone())
+        Some(HavokRootObject::new(self.remembered_objects[1].clone()))
     }
 
-    fn read_object(&mut self) -> HavokObject {
-        let object_type_index = self.read_packed_int();
+    fn read_object(&mut self) -> Option<HavokObject> {
+        let object_type_index = self.read_packed_int()?;
         let object_type = self.remembered_types[object_type_index as usize].clone();
 
         let members = object_type.members();
-        let data_existence = self.read_bit_field(members.len());
+        let data_existence = self.read_bit_field(members.len())?;
 
-        let data = members
-            .into_iter()
-            .enumerate()
-            .map(|(index, member)| {
-                let value = if data_existence[index] {
-                    self.read_object_member_value(member)
-                } else {
-                    Self::default_value(member.type_)
-                };
-                (index, value)
-            })
-            .collect::<HashMap<_, _>>();
+        let mut data = HashMap::new();
+        for (index, member) in members.into_iter().enumerate() {
+            let value = if data_existence[index] {
+                self.read_object_member_value(member)?
+            } else {
+                Self::default_value(member.type_)
+            };
+            data.insert(index, value);
+        }
 
-        HavokObject::new(object_type.clone(), data)
+        Some(HavokObject::new(object_type.clone(), data))
     }
 
-    fn read_object_member_value(&mut self, member: &HavokObjectTypeMember) -> HavokValue {
-        if member.type_.is_array() {
-            let array_len = self.read_packed_int();
+    fn read_object_member_value(&mut self, member: &HavokObjectTypeMember) -> Option<HavokValue> {
+        Some(if member.type_.is_array() {
+            let array_len = self.read_packed_int()?;
             // a length that is negative or larger than the remaining input is corrupt and would
             // make the loops below run and allocate without end
             if array_len < 0 || array_len as usize > self.reader.raw().len() {
@@ -160,30 +158,34 @@ impl<'a> HavokBinaryTagFileReader<'a> {
                 panic!()
             }
 
-            HavokValue::Array(self.read_array(member, array_len as usize))
+            HavokValue::Array(self.read_array(member, array_len as usize)?)
         } else {
             match member.type_ {
-                HavokValueType::BYTE => HavokValue::Integer(self.reader.read() as i32),
-                HavokValueType::INT => HavokValue::Integer(self.read_packed_int()),
-                HavokValueType::REAL => HavokValue::Real(self.reader.read_f32_le()),
-                HavokValueType::STRING => HavokValue::String(self.read_string()),
+                HavokValueType::BYTE => HavokValue::Integer(self.reader.try_read()? as i32),
+                HavokValueType::INT => HavokValue::Integer(self.read_packed_int()?),
+                HavokValueType::REAL => HavokValue::Real(self.reader.try_read_f32_le()?),
+                HavokValueType::STRING => HavokValue::String(self.read_string()?),
                 HavokValueType::OBJECT => {
-                    HavokValue::ObjectReference(self.read_packed_int() as usize)
+                    HavokValue::ObjectReference(self.read_packed_int()? as usize)
                 }
                 _ => panic!("unimplemented {}", member.type_.bits()),
             }
-        }
+        })
     }
 
-    fn read_array(&mut self, member: &HavokObjectTypeMember, array_len: usize) -> Vec<HavokValue> {
+    fn read_array(
+        &mut self,
+        member: &HavokObjectTypeMember,
+        array_len: usize,
+    ) -> Option<Vec<HavokValue>> {
         let base_type = member.type_.base_type();
-        match base_type {
+        Some(match base_type {
             HavokValueType::STRING => (0..array_len)
-                .map(|_| HavokValue::String(self.read_string()))
-                .collect::<Vec<_>>(),
+                .map(|_| Some(HavokValue::String(self.read_string()?)))
+                .collect::<Option<Vec<_>>>()?,
             HavokValueType::STRUCT => {
                 let target_type = self.find_type(member.class_name.as_ref().unwrap());
-                let data_existence = self.read_bit_field(target_type.member_count());
+                let data_existence = self.read_bit_field(target_type.member_count())?;
 
                 let mut result_objects = Vec::new();
                 for _ in 0..array_len {
@@ -202,7 +204,7 @@ impl<'a> HavokBinaryTagFileReader<'a> {
                         if member.type_.is_tuple() {
                             panic!()
                         } else {
-                            let data = self.read_array(member, array_len);
+                            let data = self.read_array(member, array_len)?;
                             for (index, item) in data.into_iter().enumerate() {
                                 result_objects[index].borrow_mut().set(member_index, item);
                             }
@@ -217,25 +219,25 @@ impl<'a> HavokBinaryTagFileReader<'a> {
             }
             HavokValueType::OBJECT => (0..array_len)
                 .map(|_| {
-                    let object_index = self.read_packed_int();
+                    let object_index = self.read_packed_int()?;
 
-                    HavokValue::ObjectReference(object_index as usize)
+                    Some(HavokValue::ObjectReference(object_index as usize))
                 })
-                .collect::<Vec<_>>(),
+                .collect::<Option<Vec<_>>>()?,
             HavokValueType::BYTE => (0..array_len)
-                .map(|_| HavokValue::Integer(self.reader.read() as HavokInteger))
-                .collect::<Vec<_>>(),
+                .map(|_| Some(HavokValue::Integer(self.reader.try_read()? as HavokInteger)))
+                .collect::<Option<Vec<_>>>()?,
             HavokValueType::INT => {
                 if self.file_version >= 3 {
-                    self.read_packed_int(); // type?
+                    self.read_packed_int()?; // type?
                 }
                 (0..array_len)
-                    .map(|_| HavokValue::Integer(self.read_packed_int()))
-                    .collect::<Vec<_>>()
+                    .map(|_| Some(HavokValue::Integer(self.read_packed_int()?)))
+                    .collect::<Option<Vec<_>>>()?
             }
             HavokValueType::REAL => (0..array_len)
-                .map(|_| HavokValue::Real(self.reader.read_f32_le()))
-                .collect::<Vec<_>>(),
+                .map(|_| Some(HavokValue::Real(self.reader.try_read_f32_le()?)))
+                .collect::<Option<Vec<_>>>()?,
             HavokValueType::VEC4
             | HavokValueType::VEC8
             | HavokValueType::VEC12
@@ -243,27 +245,27 @@ impl<'a> HavokBinaryTagFileReader<'a> {
                 let vec_size = member.type_.base_type().vec_size() as usize;
                 (0..array_len)
                     .map(|_| {
-                        HavokValue::Vec(
+                        Some(HavokValue::Vec(
                             (0..vec_size)
-                                .map(|_| self.reader.read_f32_le())
-                                .collect::<Vec<_>>(),
-                        )
+                                .map(|_| self.reader.try_read_f32_le())
+                                .collect::<Option<Vec<_>>>()?,
+                        ))
                     })
-                    .collect::<Vec<_>>()
+                    .collect::<Option<Vec<_>>>()?
             }
             _ => panic!(
                 "unimplemented {} {}",
                 member.type_.bits(),
                 member.type_.base_type().bits()
             ),
-        }
+        })
     }
 
-    fn read_type(&mut self) -> HavokObjectType {
-        let name = self.read_string();
-        let _version = self.read_packed_int();
-        let parent = self.read_packed_int();
-        let member_count = self.read_packed_int();
+    fn read_type(&mut self) -> Option<HavokObjectType> {
+        let name = self.read_string()?;
+        let _version = self.read_packed_int()?;
+        let parent = self.read_packed_int()?;
+        let member_count = self.read_packed_int()?;
         if member_count as i64 > self.reader.raw().len() as i64 {
             panic!("invalid member count")
         }
@@ -271,48 +273,53 @@ impl<'a> HavokBinaryTagFileReader<'a> {
         let parent = self.remembered_types[parent as usize].clone();
         let members = (0..member_count)
             .map(|_| {
-                let member_name = self.read_string();
-                let type_ = HavokValueType::from_bits(self.read_packed_int() as u32).unwrap();
+                let member_name = self.read_string()?;
+                let type_ = HavokValueType::from_bits(self.read_packed_int()? as u32).unwrap();
 
                 let tuple_size = if type_.is_tuple() {
-                    self.read_packed_int()
+                    self.read_packed_int()?
                 } else {
                     0
                 };
                 let type_name = if type_.base_type() == HavokValueType::OBJECT
                     || type_.base_type() == HavokValueType::STRUCT
                 {
-                    Some(self.read_string())
+                    Some(self.read_string()?)
                 } else {
                     None
                 };
 
-                HavokObjectTypeMember::new(member_name, type_, tuple_size as u32, type_name)
+                Some(HavokObjectTypeMember::new(
+                    member_name,
+                    type_,
+                    tuple_size as u32,
+                    type_name,
+                ))
             })
-            .collect::<Vec<_>>();
+            .collect::<Option<Vec<_>>>()?;
 
-        HavokObjectType::new(name, Some(parent), members)
+        Some(HavokObjectType::new(name, Some(parent), members))
     }
 
-    fn read_string(&mut self) -> Arc<str> {
-        let length = self.read_packed_int();
+    fn read_string(&mut self) -> Option<Arc<str>> {
+        let length = self.read_packed_int()?;
         if length < 0 {
-            return self.remembered_strings[-length as usize].clone();
+            return Some(self.remembered_strings[-length as usize].clone());
         }
 
         let result = Arc::from(
-            std::str::from_utf8(self.reader.read_bytes(length as usize))
+            std::str::from_utf8(self.reader.try_read_bytes(length as usize)?)
                 .unwrap()
                 .to_owned(),
         );
         self.remembered_strings.push(Arc::clone(&result));
 
-        result
+        Some(result)
     }
 
-    fn read_bit_field(&mut self, count: usize) -> Vec<bool> {
+    fn read_bit_field(&mut self, count: usize) -> Option<Vec<bool>> {
         let bytes_to_read = ((count + 7) & 0xffff_fff8) / 8;
-        let bytes = self.reader.read_bytes(bytes_to_read);
+        let bytes = self.reader.try_read_bytes(bytes_to_read)?;
 
         let mut result = Vec::with_capacity(count);
         for byte in bytes {
@@ -327,27 +334,27 @@ impl<'a> HavokBinaryTagFileReader<'a> {
             }
         }
 
-        result
+        Some(result)
     }
 
-    fn read_packed_int(&mut self) -> HavokInteger {
-        let mut byte = self.reader.read();
+    fn read_packed_int(&mut self) -> Option<HavokInteger> {
+        let mut byte = self.reader.try_read()?;
 
         let mut result = ((byte & 0x7f) >> 1) as u32;
         let neg = byte & 1;
 
         let mut shift = 6;
         while byte & 0x80 != 0 {
-            byte = self.reader.read();
+            byte = self.reader.try_read()?;
 
             result |= ((byte as u32) & 0xffff_ff7f) << shift;
             shift += 7;
         }
-        if neg == 1 {
+        Some(if neg == 1 {
             -(result as HavokInteger)
         } else {
             result as HavokInteger
-        }
+        })
     }
 
     fn find_type(&self, type_name: &str) -> Arc<HavokObjectType> {
